@@ -276,17 +276,20 @@ TECHNIQUE = {
            "translations; must-equal dataflow between the searched snapshot and the rewritten text; rule-table order check",
     "C16": "alias-chain check of the env object over the resolved call graph; reaching-definition check that every reference-table "
            "key is a normalizeReference result; predicate dominance of the first-wins guard; transform-chain recognition of the "
-           "label normaliser; sibling agreement of the three destination / title consumers; one-line check of raw source slices",
+           "label normaliser; sibling agreement of the three destination / title consumers; one-line check of raw source slices; "
+           "provenance analysis (reaching definitions through helper returns, tuples and record fields) of the line count that "
+           "moves the block cursor past a definition",
     "C10": "truth-table simulation of the chain-compilation loop; call-graph computation of token-kind producers against a "
            "reviewed table; edge-dominance of effects by trigger / option tests on per-function CFGs; sibling agreement of the "
-           "facade's fan-out and of the option accessors",
+           "facade's fan-out and of the option accessors; typestate of the compiled-chain cache over the Ruler methods",
     "C08": "provenance (taint-style) analysis over reaching definitions with an allowed-transform grammar; unit (column vs "
            "character) typing of getLines arguments; predicate-dominance check of the padding strip; reaching-definition / "
            "value-numbering check that both ends of a source slice belong to one line; value-numbering relation between a "
            "repetition count and the scan counter; dimension check of getLines' tab stops",
     "C09": "set equality of character tables extracted from literals and regex ASTs; traversal-coverage analysis of the "
            "placeholder eliminator (coverage, totality, closure under children); accumulator-overwrite and escape-unaware-"
-           "operation lints; regex-language probes of the numeric-reference patterns",
+           "operation lints; regex-language probes of the numeric-reference patterns; must-pass-through check that the driver hands "
+           "every stream element to the eliminator; effect analysis of the renderer's alt computation",
     "C17": "forward dataflow of normalisation facts (no-CRLF / no-CR / no-NUL) through the normalize rule; regex-language "
            "decision of the extracted constants; dimension (absolute vs relative column) check of all tab-stop arithmetic and "
            "bsCount stores (every alternative of conditional expressions); per-iteration definite assignment of the marker "
@@ -294,11 +297,13 @@ TECHNIQUE = {
            "lint: space accepted without tab",
     "C07": "value numbering with symbolic entry values (context fields and line-table cells restored at every return, "
            "co-inductive over the rule set); must-pass-through / dominance checks for the freshness of tight and parentType; "
-           "sibling lockstep of the save lists; the block-rule modules are first brought to a normal form by behaviour-"
+           "reaching-definition check that the tight value stored after a dispatch predates the dispatch; sibling lockstep of the save "
+           "lists; the block-rule modules are first brought to a normal form by behaviour-"
            "preserving inlining of private helpers and dissolution of private records (sa/inline.py)",
     "C03": "value numbering with symbolic entry values over per-rule CFGs (map end == cursor identity) plus a must-pass-through "
            "path check for placeholder patches; zone (difference-bound) dataflow with trace partitioning on a flag for the "
-           "cursor <= lineMax contract, assumed co-inductively after each dispatch and validated at every call site",
+           "cursor <= lineMax contract, assumed co-inductively after each dispatch and validated at every call site; must-dataflow of "
+           "`isEmpty(cursor)` outcomes at every step of the paragraph-like line scans; provenance of the reference line count",
     "C02": "typestate (flag valuation x level offset) over per-function CFGs with co-inductive callee summaries; value numbering "
            "of the push bodies specialised on the nesting literal; literal-agreement and who-may-write queries; dominance of "
            "`not silent` via predicate dataflow; traversal-coverage analysis of the placeholder eliminator; guard check of the loop "
@@ -319,8 +324,10 @@ TECHNIQUE = {
     "C13": "write-effect classification (no shared writes) plus a CFG reachability check that nothing mutates the chain cache "
            "after its publication",
     "C14": "write-effect classification plus CFG comparison of the normal and the exceptional successor sets of every yield in a "
-           "@contextmanager; return-value check of every __exit__",
-    "C15": "effect analysis of the render phase restricted to Token-typed receivers; freshness (copy) check of scratch tokens",
+           "@contextmanager; return-value check of every __exit__; typestate of the chain cache and fan-out agreement of reset_rules",
+    "C15": "effect analysis of the render phase restricted to Token-typed receivers; freshness (copy) check of scratch tokens; "
+           "class-hierarchy query that node equality is identity wherever a node is searched for by equality",
     "C11": "typestate analysis over per-method CFGs with exceptional edges and interprocedural method summaries; "
-           "who-may-write effect query; truth-table simulation of the chain-compilation loop",
+           "who-may-write effect query; truth-table simulation of the chain-compilation loop; zone / predicate dataflow (with trace "
+           "partitioning on a flag) that the -1 sentinel of the name lookup is excluded before the result is used as a position",
 }
